@@ -9,7 +9,7 @@ prop(
     needs_bin=True,
     stages=[
         dict(run="^TestPropTotality$",
-             quick=dict(checks=9600, shards=32, parallel=32, timeout=900),
+             quick=dict(checks=8000, shards=32, parallel=32, timeout=900),
              thorough=dict(checks=160000, shards=32, parallel=32, timeout=7200)),
         dict(run="^TestPropBinary$",
              quick=dict(checks=320, shards=16, parallel=16, timeout=900),
